@@ -306,3 +306,4 @@ MUTANTS = [
         if(rb == -1)
             goto read_error;""", 'expect': None},
 ]
+
